@@ -56,19 +56,21 @@ structure Eff (kd kl ka : Nat) (s s' : St) : Prop where
   linear : Top kl s.linear s'.linear
   addr : Top ka s.addr s'.addr
   susp : s'.suspended = s.suspended
+  loopstack : s'.loopstack = s.loopstack
 
-theorem Eff.refl (s : St) : Eff 0 0 0 s s := ⟨Top.refl _, Top.refl _, Top.refl _, rfl⟩
+theorem Eff.refl (s : St) : Eff 0 0 0 s s := ⟨Top.refl _, Top.refl _, Top.refl _, rfl, rfl⟩
 
 /-- a step that leaves the four stacks as they are (pc, tables … may change) -/
 theorem Eff.same {s s' : St} (hd : s'.data = s.data) (hl : s'.linear = s.linear) (ha : s'.addr = s.addr)
-    (hs : s'.suspended = s.suspended) : Eff 0 0 0 s s' := ⟨Top.of_eq hd, Top.of_eq hl, Top.of_eq ha, hs⟩
+    (hs : s'.suspended = s.suspended) (hls : s'.loopstack = s.loopstack := by rfl) : Eff 0 0 0 s s' :=
+  ⟨Top.of_eq hd, Top.of_eq hl, Top.of_eq ha, hs, hls⟩
 
 theorem Eff.mono {a b c a' b' c' : Nat} {s s' : St} (h : Eff a b c s s') (ha : a ≤ a') (hb : b ≤ b') (hc : c ≤ c') :
-    Eff a' b' c' s s' := ⟨h.data.mono ha, h.linear.mono hb, h.addr.mono hc, h.susp⟩
+    Eff a' b' c' s s' := ⟨h.data.mono ha, h.linear.mono hb, h.addr.mono hc, h.susp, h.loopstack⟩
 
 theorem Eff.trans {a b c a' b' c' : Nat} {s s' s'' : St} (h1 : Eff a b c s s') (h2 : Eff a' b' c' s' s'') :
     Eff (a + a') (b + b') (c + c') s s'' :=
-  ⟨h1.data.trans h2.data, h1.linear.trans h2.linear, h1.addr.trans h2.addr, h2.susp.trans h1.susp⟩
+  ⟨h1.data.trans h2.data, h1.linear.trans h2.linear, h1.addr.trans h2.addr, h2.susp.trans h1.susp, h2.loopstack.trans h1.loopstack⟩
 
 /-- The three stacks of `s` still stand on the given bases. -/
 structure Above (bd : List (Option Val)) (bl : List (Option Nat)) (ba : List (Option (Nat × Int))) (s : St) : Prop where
@@ -85,14 +87,14 @@ theorem Eff.frame {kd kl ka : Nat} {s s' : St} (h : Eff kd kl ka s s') {bd bl ba
 /-! ## The helpers -/
 
 theorem eff_pushData (v : Val) (s : St) : Eff 0 0 0 s ((pushData v).run s).2 :=
-  ⟨Top.push _ _, Top.refl _, Top.refl _, rfl⟩
+  ⟨Top.push _ _, Top.refl _, Top.refl _, rfl, rfl⟩
 
 theorem eff_popData (s : St) : Eff 1 0 0 s (popData.run s).2 := by
   rw [run_popData]
   rcases hd : s.data with _ | ⟨_ | v, rest⟩
   · exact (Eff.refl s).mono (Nat.zero_le _) (Nat.le_refl _) (Nat.le_refl _)
   · exact (Eff.refl s).mono (Nat.zero_le _) (Nat.le_refl _) (Nat.le_refl _)
-  · exact ⟨by show Top 1 s.data rest; rw [hd]; exact Top.tail _ _, Top.refl _, Top.refl _, rfl⟩
+  · exact ⟨by show Top 1 s.data rest; rw [hd]; exact Top.tail _ _, Top.refl _, Top.refl _, rfl, rfl⟩
 
 theorem run_popN (n : Nat) (s : St) :
     (popN n).run s = if s.data.length < n then (.error .err, s) else
@@ -111,7 +113,7 @@ theorem eff_popN (n : Nat) (s : St) : Eff n 0 0 s ((popN n).run s).2 := by
   · exact (Eff.refl s).mono (Nat.zero_le _) (Nat.le_refl _) (Nat.le_refl _)
   · split
     · exact (Eff.refl s).mono (Nat.zero_le _) (Nat.le_refl _) (Nat.le_refl _)
-    · exact ⟨Top.drop _ _, Top.refl _, Top.refl _, rfl⟩
+    · exact ⟨Top.drop _ _, Top.refl _, Top.refl _, rfl, rfl⟩
 
 /-- how many cells `PopUntilStackmark`/`ClearStackmark` take off: down to and including the
 first mark of the loop — every cell when there is none — stopping short at a nil cell. -/
@@ -134,7 +136,7 @@ theorem eff_popToMark (l : Nat) (keep : Bool) : ∀ (fuel : Nat) (s : St),
     · exact (Eff.refl s).mono (Nat.zero_le _) (Nat.le_refl _) (Nat.le_refl _)
     · dsimp only
       have hpop : Eff 1 0 0 s { s with data := rest } :=
-        ⟨by show Top 1 s.data rest; rw [hd]; exact Top.tail _ _, Top.refl _, Top.refl _, rfl⟩
+        ⟨by show Top 1 s.data rest; rw [hd]; exact Top.tail _ _, Top.refl _, Top.refl _, rfl, rfl⟩
       have ih : Eff (markNeed l rest) 0 0 { s with data := rest } ((popToMark l keep fuel).run { s with data := rest }).2 :=
         eff_popToMark l keep fuel { s with data := rest }
       cases v with
@@ -165,7 +167,7 @@ theorem eff_popScope (s : St) : Eff 0 1 0 s (popScope.run s).2 := by
   rw [run_popScope]
   rcases hl : s.linear with _ | ⟨x, rest⟩
   · exact (Eff.refl s).mono (Nat.le_refl _) (Nat.zero_le _) (Nat.le_refl _)
-  · exact ⟨Top.refl _, by show Top 1 s.linear rest; rw [hl]; exact Top.tail _ _, Top.refl _, rfl⟩
+  · exact ⟨Top.refl _, by show Top 1 s.linear rest; rw [hl]; exact Top.tail _ _, Top.refl _, rfl, rfl⟩
 
 theorem eff_popScopes : ∀ (n : Nat) (s : St), Eff 0 n 0 s ((popScopes n).run s).2
   | 0, s => by rw [popScopes]; exact Eff.refl s
@@ -270,12 +272,13 @@ namespace ZygoVerif.Contain
 open ZygoVerif.Core ZygoVerif.VM ZygoVerif.Sim
 
 theorem Eff.sameAny {a b c : Nat} {s s' : St} (hd : s'.data = s.data) (hl : s'.linear = s.linear) (ha : s'.addr = s.addr)
-    (hs : s'.suspended = s.suspended) : Eff a b c s s' :=
-  (Eff.same hd hl ha hs).mono (Nat.zero_le _) (Nat.zero_le _) (Nat.zero_le _)
+    (hs : s'.suspended = s.suspended) (hls : s'.loopstack = s.loopstack := by rfl) : Eff a b c s s' :=
+  (Eff.same hd hl ha hs hls).mono (Nat.zero_le _) (Nat.zero_le _) (Nat.zero_le _)
 
 theorem eff_modify (g : St → St) (s : St) (hd : (g s).data = s.data) (hl : (g s).linear = s.linear)
-    (ha : (g s).addr = s.addr) (hs : (g s).suspended = s.suspended) : Eff 0 0 0 s ((modify g : M Unit).run s).2 :=
-  Eff.same hd hl ha hs
+    (ha : (g s).addr = s.addr) (hs : (g s).suspended = s.suspended) (hls : (g s).loopstack = s.loopstack := by rfl) :
+    Eff 0 0 0 s ((modify g : M Unit).run s).2 :=
+  Eff.same hd hl ha hs hls
 
 macro "eff0" : tactic => `(tactic| exact Eff.sameAny rfl rfl rfl rfl)
 
@@ -285,7 +288,7 @@ macro "eff_by " t:term : tactic => `(tactic|
 
 theorem eff_pop1 {s : St} {v : Option Val} {rest : List (Option Val)} (hd : s.data = v :: rest) (pc : Int) :
     Eff 1 0 0 s { s with data := rest, pc := pc } :=
-  ⟨by show Top 1 s.data rest; rw [hd]; exact Top.tail _ _, Top.refl _, Top.refl _, rfl⟩
+  ⟨by show Top 1 s.data rest; rw [hd]; exact Top.tail _ _, Top.refl _, Top.refl _, rfl, rfl⟩
 
 /-- **The stack effect of every non-re-entrant instruction of the real instruction set**, for
 every state and every outcome. -/
@@ -294,7 +297,7 @@ theorem exec_simple_eff (f : Nat) (i : Instr) (s : St) (hs : simple i = true) :
   cases i with
   | callArr n => cases hs
   | callExpr c a => cases hs
-  | push v => rw [exec_push]; exact ⟨Top.push _ _, Top.refl _, Top.refl _, rfl⟩
+  | push v => rw [exec_push]; exact ⟨Top.push _ _, Top.refl _, Top.refl _, rfl, rfl⟩
   | pop =>
     show Eff (min 1 s.data.length) 0 0 s _
     rw [exec_pop]
@@ -308,7 +311,7 @@ theorem exec_simple_eff (f : Nat) (i : Instr) (s : St) (hs : simple i = true) :
     rcases hd : s.data with _ | ⟨_ | v, rest⟩ <;> dsimp only
     · eff0
     · eff0
-    · exact ⟨by show Top 0 s.data (some v :: some v :: rest); rw [hd]; exact Top.push _ _, Top.refl _, Top.refl _, rfl⟩
+    · exact ⟨by show Top 0 s.data (some v :: some v :: rest); rw [hd]; exact Top.push _ _, Top.refl _, Top.refl _, rfl, rfl⟩
   | jump o => rw [exec_jump]; split <;> eff0
   | goto l => rw [exec_goto]; split <;> eff0
   | branch d o =>
@@ -354,9 +357,9 @@ theorem exec_simple_eff (f : Nat) (i : Instr) (s : St) (hs : simple i = true) :
     rcases ha : s.addr with _ | ⟨_ | ⟨fn, pc⟩, rest⟩ <;> dsimp only
     · eff0
     · eff0
-    · exact ⟨Top.refl _, Top.refl _, by show Top 1 s.addr rest; rw [ha]; exact Top.tail _ _, rfl⟩
-  | addScope => rw [exec]; exact ⟨Top.refl _, Top.push _ _, Top.refl _, rfl⟩
-  | addFuncScope t => rw [exec]; exact ⟨Top.refl _, Top.push _ _, Top.refl _, rfl⟩
+    · exact ⟨Top.refl _, Top.refl _, by show Top 1 s.addr rest; rw [ha]; exact Top.tail _ _, rfl, rfl⟩
+  | addScope => rw [exec]; exact ⟨Top.refl _, Top.push _ _, Top.refl _, rfl, rfl⟩
+  | addFuncScope t => rw [exec]; exact ⟨Top.refl _, Top.push _ _, Top.refl _, rfl, rfl⟩
   | removeScope =>
     show Eff 0 1 0 s _
     rw [exec]
@@ -372,7 +375,7 @@ theorem exec_simple_eff (f : Nat) (i : Instr) (s : St) (hs : simple i = true) :
         pushData (.fn id) : M Unit).run s1).2 := by
       intro s1
       simp only [run_bind, run_get, run_set, run_pushData]
-      exact ⟨Top.push _ _, Top.refl _, Top.refl _, rfl⟩
+      exact ⟨Top.push _ _, Top.refl _, Top.refl _, rfl, rfl⟩
     eff_by (eff_bind (eff_incPc s) (fun _ s1 _ => hk s1))
   | prepareCall x nargs =>
     rw [exec]
@@ -393,7 +396,7 @@ theorem exec_simple_eff (f : Nat) (i : Instr) (s : St) (hs : simple i = true) :
     show Eff 0 0 0 s _
     rw [exec]
     simp only [run_bind, run_get, run_set, run_pushData, run_incPc]
-    exact ⟨Top.push _ _, Top.refl _, Top.refl _, rfl⟩
+    exact ⟨Top.push _ _, Top.refl _, Top.refl _, rfl, rfl⟩
   | loopStart l => rw [exec]; eff0
   | label => rw [exec]; eff0
   | pushMark l =>
